@@ -150,25 +150,25 @@ func c06bRun(r *mc.Report, sc *c06bScenario, c *mc.Ctx) (outcome string) {
 		sched := " | schedule: " + strings.Join(trace, " ")
 		minRadius := seen[0].radius
 		for i, o := range seen {
-			// one report per reading: the first item beyond the radius as stated but within it when
-			// read byte-reversed (the recorded finding), and the first item beyond it under both
-			var onlyStated, both *uint256.Int
+			// one report per reading, as in the sequential part (c05.go)
+			firstOf := map[string]*uint256.Int{}
 			for _, it := range o.items {
 				if d := beUint(it.K); d.Gt(o.radius) { // "within" includes the boundary
-					if d.Gt(rev(o.radius)) {
-						if both == nil {
-							both = d
-						}
-					} else if onlyStated == nil {
-						onlyStated = d
+					kind := " (concurrent:" + sc.Name + ")"
+					switch {
+					case !d.Gt(rev(o.radius)):
+						kind = ":holds-only-with-radius-read-byte-reversed"
+					case !rev(d).Gt(o.radius):
+						kind = ":holds-only-with-distance-read-little-endian"
+					}
+					if firstOf[kind] == nil {
+						firstOf[kind] = d
 					}
 				}
 			}
-			for _, d := range []*uint256.Int{onlyStated, both} {
-				if d != nil {
-					r.Violation("retained-within-advertised-radius", site(d == onlyStated, "ContentStorage"),
-						fmt.Sprintf("at %s a retained item lies at distance %s, advertised radius is %s%s", o.when, d.Hex(), o.radius.Hex(), sched), cs())
-				}
+			for kind, d := range firstOf {
+				r.Violation("retained-within-advertised-radius", "ContentStorage"+kind,
+					fmt.Sprintf("at %s a retained item lies at distance %s, advertised radius is %s%s", o.when, d.Hex(), o.radius.Hex(), sched), cs())
 			}
 			if i > 0 && o.radius.Gt(seen[i-1].radius) {
 				r.Violation("radius-only-shrinks", site(!rev(o.radius).Gt(rev(seen[i-1].radius)), "ContentStorage.Put"),
